@@ -65,6 +65,89 @@ def dpll(clauses, assign=None):
     return None
 
 
+class CNF:
+    """Occurrence-list unit propagation + branching; built once, queried many times with different assumptions.
+
+    A third implementation (counter based), used where one formula is decided under hundreds of assignments (C06).
+    """
+
+    def __init__(self, clauses):
+        self.cl = []
+        self.trivially_unsat = False
+        for c in clauses:
+            s = set(c)
+            if any(-l in s for l in s):
+                continue
+            if not s:
+                self.trivially_unsat = True
+            self.cl.append(tuple(s))
+        self.occ = {}
+        for i, c in enumerate(self.cl):
+            for l in c:
+                self.occ.setdefault(l, []).append(i)
+        self.units = [c[0] for c in self.cl if len(c) == 1]
+
+    def solve(self, assign=None):
+        """assign: {var: bool}. Returns a (partial) model dict satisfying every clause, or None."""
+        if self.trivially_unsat:
+            return None
+        val = {}
+        nfalse = [0] * len(self.cl)
+        sat = [False] * len(self.cl)
+        queue = [(v if b else -v) for v, b in (assign or {}).items()] + list(self.units)
+        return self._search(val, nfalse, sat, queue)
+
+    def _propagate(self, val, nfalse, sat, queue):
+        cl, occ = self.cl, self.occ
+        while queue:
+            lit = queue.pop()
+            v = abs(lit)
+            if v in val:
+                if val[v] != (lit > 0):
+                    return False
+                continue
+            val[v] = lit > 0
+            for i in occ.get(lit, ()):
+                sat[i] = True
+            for i in occ.get(-lit, ()):
+                if sat[i]:
+                    continue
+                nfalse[i] += 1
+                c = cl[i]
+                if nfalse[i] == len(c):
+                    return False
+                if nfalse[i] == len(c) - 1:
+                    for l in c:
+                        if abs(l) not in val:
+                            queue.append(l)
+                            break
+                    else:  # the last literal is already assigned: true (then sat) or false (counted) - recheck
+                        if not any(val.get(abs(l)) == (l > 0) for l in c):
+                            return False
+        return True
+
+    def _search(self, val, nfalse, sat, queue):
+        stack = [(val, nfalse, sat, queue)]
+        while stack:
+            val, nfalse, sat, queue = stack.pop()
+            if not self._propagate(val, nfalse, sat, queue):
+                continue
+            branch = None
+            for i, c in enumerate(self.cl):
+                if sat[i]:
+                    continue
+                if any(val.get(abs(l)) == (l > 0) for l in c):
+                    sat[i] = True
+                    continue
+                branch = next(l for l in c if abs(l) not in val)
+                break
+            if branch is None:
+                return val
+            stack.append((dict(val), list(nfalse), list(sat), [-branch]))
+            stack.append((val, nfalse, sat, [branch]))
+        return None
+
+
 def satisfiable(clauses, assumptions=()):
     a = {}
     for l in assumptions:
@@ -132,6 +215,18 @@ def selftest():
                 m0[abs(l)] = l > 0
             mod = dpll(cl, m0)
             assert model_ok(cl, mod) is None and all(mod.get(abs(l)) == (l > 0) for l in ass)
+        f = CNF(cl)
+        m0 = {}
+        consistent = True
+        for l in ass:
+            if m0.get(abs(l), l > 0) != (l > 0):
+                consistent = False
+            m0[abs(l)] = l > 0
+        if consistent:
+            mod = f.solve(m0)
+            assert (mod is not None) == b, (cl, ass, mod, b)
+            if mod is not None:
+                assert model_ok(cl, mod) is None and all(mod.get(abs(l)) == (l > 0) for l in ass), (cl, ass, mod)
         if cl:
             c = [rng.choice([1, -1]) * rng.randint(1, n) for _ in range(rng.randint(1, 3))]
             e = entails(cl, c)
